@@ -78,8 +78,10 @@ def cases(tier, seed):
 
 
 def _ro(a):
-    a.setflags(write=False)
-    return a
+    """Read-only view keeping the memory layout of `a` (numpy then refuses any write into the caller's array when it happens)."""
+    v = np.asarray(a).view()
+    v.setflags(write=False)
+    return v
 
 
 def _tables_digest():
@@ -152,8 +154,11 @@ def run_case(case):
     dt = np.dtype(case['dtype'])
     shape = case['shape']
     nb, nkeys = len(blocks), len(keys)
-    arr_b = _ro(blocks.astype(dt) if shape in ('many_one', 'paired') else blocks[0].astype(dt))
-    arr_k = _ro(keys.astype(dt) if shape in ('one_many', 'paired') else keys[0].astype(dt))
+    from .. import gen as _gen
+    lay = np.random.default_rng(case['sub'] ^ 0x5eed)
+    arr_b = _ro(_gen.layout_nd(lay, blocks.astype(dt)) if shape in ('many_one', 'paired') else blocks[0].astype(dt))
+    arr_k = _ro(_gen.layout_nd(lay, keys.astype(dt)) if shape in ('one_many', 'paired') else keys[0].astype(dt))
+    t.count('layout:' + ('C' if arr_b.flags.c_contiguous and arr_k.flags.c_contiguous else 'non_C'))
     snap = (arr_b.tobytes(), arr_k.tobytes())
     n = max(nb, nkeys)
     nr = case['nk'] // 4 + 6
@@ -284,6 +289,12 @@ def _primitives(t, case):
         t.check(got.shape == st.shape and np.array_equal(got, exp), 'prim_' + f.__name__, lambda: dict(f=f.__name__, got=got[0].tolist(), expected=exp[0].tolist()))
         got1 = f(_ro(st[3].copy()))
         t.check(got1.shape == (16,) and np.array_equal(got1, exp[3]), 'prim_1d_' + f.__name__, None)
+        # the same states in other memory layouts (Fortran order, strided rows, a 3-D stack seen through swapaxes)
+        for lname, view in (('fortran', np.asfortranarray(st)), ('strided', np.repeat(st, 2, axis=0)[::2]),
+                            ('transposed_buffer', np.ascontiguousarray(np.asarray(st).T).T)):
+            gv = f(_ro(view))
+            t.count('primitive_values', len(states))
+            t.check(gv.shape == st.shape and np.array_equal(gv, exp), 'prim_layout_' + f.__name__, lambda: dict(f=f.__name__, layout=lname))
     # mix_column / inv_mix_column: all single-byte columns at the 4 positions + random columns
     cols = []
     for p in range(4):
